@@ -29,13 +29,14 @@ META = {
     'level': 'proof',
     'level_text': 'Full proof on the model: for every sequence length n>=1 and every list of calls (selecting this stub, other '
                   'conditions or the default in any order) the k-th call selecting a stub gets element min(k,n-1) and no other stub '
-                  'moves (calls_kth, independent, configured_sequence_served, returns_builds_*); for every schedule of any number '
+                  'moves (calls_kth, all_stubs_served, default_sequence_served, independent, returns_builds_*, matches_builds); for every schedule of any number '
                   'of concurrent callers every returned index is < n, a call invoked after another returned position v returns '
                   '>= min(v+1,n-1) (hence per-caller and real-time monotone, and sticky once the last element was returned), and the '
                   'cursor stays <= n-1+T so the int32 cannot wrap (conc_*); trace validation is sound (admits_sound).',
-    'level_note': 'The literal reading of "once the last element has been returned it is the only one returned" is false for '
-                  'overlapping calls (theorem literal_sticky_fails: a caller that loaded the cursor earlier may still return an '
-                  'earlier element); the real-time version (calls that start after the return) is what is proved and checked. '
+    'level_note': 'The return-order reading of "once the last element has been returned it is the only one returned" is false '
+                  '(def LiteralSticky, literal_sticky_false) and would be false of any implementation, even an atomic one '
+                  '(literal_sticky_fails_even_if_atomic: nobody controls when a caller observes its result); the real-time version '
+                  '(calls that start after the return) is what is proved and checked. Match/Eval of conditions are assumed pure. '
                   'Trusted: Lean kernel (propext, Classical.choice, Quot.sound), the hand transcription of when.go/mocker.go '
                   '(tied by differential runs on every evaluation), the go/ast extractor, the probe and its stamping. Not modelled: '
                   'reflect.MakeFunc/Call, Go memory model of the non-atomic curNum read on the single-result path (no writer exists '
@@ -726,7 +727,7 @@ def serve_oracle(ops, impl):
 
 def sizes(tier):
     if tier == 'quick':
-        return {'spec': 1000, 'free': 1000, 'mal': 20, 'conc': 500, 'conc_race': 80, 'seq_race': 100}
+        return {'spec': 2000, 'free': 1500, 'mal': 20, 'conc': 800, 'conc_race': 120, 'seq_race': 150}
     return {'spec': 20000, 'free': 20000, 'mal': 60, 'conc': 10000, 'conc_race': 1000, 'seq_race': 1500}
 
 
@@ -973,7 +974,7 @@ def write_evidence(out, tier, proof, r, changed, widened):
         'distribution': {'sequential': dist, 'concurrent': conc_dist, 'gen_cursor_changed_this_run': changed, 'widened_search_evaluations': widened},
         'samples': samples,
     }
-    out.assumptions = ['goroutine stamps from one global atomic counter order invocation/response events consistently with real time',
+    out.assumptions = ['Match/Eval of conditions are pure and thread-safe (selection never reads a cursor: theorem independent)', 'goroutine stamps from one global atomic counter order invocation/response events consistently with real time',
                        'callers never reconfigure a stub while calls are running (the property quantifies over concurrent callers only)']
 
 
